@@ -137,7 +137,8 @@ func valueObs(outs []tensor.Tensor) Observation {
 }
 
 func matchValues(want []AbsTensor, got []tensor.Tensor, cmp string) (bool, string) {
-	if len(want) != len(got) {
+	// an operator may return more (trailing) outputs than the node declares; the declared ones are compared by position
+	if len(got) < len(want) {
 		return false, fmt.Sprintf("%d outputs, expected %d", len(got), len(want))
 	}
 	for i := range want {
